@@ -68,13 +68,13 @@ def by_hand(ekf, p, Xrows, dt):
     return out, trace
 
 
-def float_run(p, e, k, rows, int_matrix=False):
+def float_run(p, e, k, rows, int_matrix=False, max_dt=None):
     """Real adapter and by-hand real filter on floats (int_matrix: the data matrix is handed over with an integer dtype)."""
 
     def go():
         with quiet():
             pn, sn = pyh.noise_vals_from_env(p, e)
-            ad = make_adapter(p, pyh.float_calibration_map(p, e), {c: float(pn[c]) for c in p.control}, {key: {r: float(sn[key][r]) for r in p.sensors[key]} for key in p.sensors}, k, max_dt=MAX_DT_CFG)
+            ad = make_adapter(p, pyh.float_calibration_map(p, e), {c: float(pn[c]) for c in p.control}, {key: {r: float(sn[key][r]) for r in p.sensors[key]} for key in p.sensors}, k, max_dt=MAX_DT_CFG if max_dt is None else max_dt)
             Xf = np.array([[float(e[f"X_{r}_{j}"]) for j in range(width(p))] for r in range(rows)])
             if int_matrix:
                 Xf = Xf.astype(np.int64)
@@ -360,16 +360,58 @@ def concrete_problems(p, e, got):
     return probs
 
 
+def task_variants(p, k, rows, max_dt, tier, seed):
+    """Concrete replays of the adapter against the by-hand filter for configurations and magnitudes the symbolic run
+    does not distinguish: a configured maximum step *below* the adapter's fixed 0.1, sensors whose innovation
+    covariance is tiny in absolute terms (P25), data far from zero."""
+    part = Part()
+    part.program(p.id)
+    part.fn("python.SklearnEKFAdapter.transform", "python.SklearnEKFAdapter.mahalanobis", "python.SklearnEKFAdapter.score")
+    rng = random.Random(seed + 77)
+    W = width(p)
+    kb = f"{p.id}/k={k}/rows={rows}/max_dt={max_dt}/variants"
+    info = {"program": p.id, "k": k, "rows": rows, "kind": "variant", "max_dt": max_dt}
+    for t in range(3 if tier == "quick" else 8):
+        e = {c: rng.randint(-8, 8) / 8.0 for c in p.calibration}
+        scale = [1.0, 2.0 ** -20, 2.0 ** 10][t % 3]
+        for r in range(rows):
+            for j in range(W):
+                e[f"X_{r}_{j}"] = rng.randint(-12, 12) / 8.0 * (scale if j >= len(p.control) else 1.0)
+        try:
+            got = float_run(p, e, k, rows, max_dt=max_dt)
+        except pyh.GateRejected:
+            continue
+        except Exception as ex:
+            path = write_replay(PID, {"key": kb + "/exception", "info": info, "inputs": e, "exception": f"{type(ex).__name__}: {ex}"})
+            part.violation(kb + "/exception", f"adapter raises {type(ex).__name__}: {ex} on a valid data matrix", path)
+            return part.d
+        probs = concrete_problems(p, e, got)
+        part.record(Q("sat" if probs else "unsat", None, 0.0, ""), f"{kb}: adapter outputs == by-hand filter at a seeded matrix (scale {scale:g}; concrete replay)")
+        if probs:
+            path = write_replay(PID, {"key": kb, "info": info, "inputs": e, "problems": probs})
+            part.violation(kb, f"adapter outputs differ from the by-hand filter (max_dt_sec={max_dt}, data scale {scale:g}): {probs[0][:300]}", path)
+            return part.d
+    return part.d
+
+
 def configs(tier, seed):
     if tier == "quick":
         return [(CP.P3(), None, 1), (CP.P3(), 4.0, 1), (CP.P1(), None, 2)]
     return [(CP.P3(), None, 1), (CP.P3(), 4.0, 1), (CP.P3(), "sym", 1), (CP.P1(), None, 2), (CP.P1(), 3.0, 2), (CP.P3().restrict(calibration=False), None, 2), (CP.P10(), None, 1), (CP.P2(), None, 2), (CP.P3().restrict(control=False), 4.0, 1)]
 
 
+def _dispatch(fn, args):
+    return fn(*args)
+
+
 def run(tier, seed):
     rep = Report(PID, tier, seed, "translation_validation")
     cfgs = configs(tier, seed)
-    for d in pmap(task, [(p, k, rows, tier, seed) for p, k, rows in cfgs]):
+    vts = [(CP.P3(), None, 1, 0.05), (CP.P25(), None, 2, 0.25), (CP.P1(), 4.0, 2, 0.03125)]
+    if tier != "quick":
+        vts += [(CP.P25(), 4.0, 1, 0.05), (CP.P10(), None, 1, 0.0625), (CP.P17(), None, 1, 0.05)]
+    tasks = [(task, (p, k, rows, tier, seed)) for p, k, rows in cfgs] + [(task_variants, (p, k, rows, md, tier, seed)) for p, k, rows, md in vts]
+    for d in pmap(_dispatch, tasks):
         rep.merge(d)
     rep.bounds = {"configurations": [f"{p.id}/k={k}/rows={rows}" for p, k, rows in cfgs], "data_matrix": "all real entries; rows <= 1-2; width = controls + sum of sensor sizes", "sensors": "sizes 1 and 2 (closed-form inverse), any number of controls", "outside": "floating-point rounding; matrices with more rows (each row repeats the same code on the previous row's result)"}
     rep.assumptions = ["validity gates and the sign gates `if np.any(x < 0): raise` assumed not to fire (non-negativity is proved separately: output == closed form over recorded (z, S), plus the lemma S PD => z'S^-1 z >= 0; S PD is C09's inductive lemma)", "sqrt as an uninterpreted function in the score", "closed-form inverse for m <= 2"]
@@ -386,6 +428,8 @@ def replay(path):
         r = json.load(f)
     info = r["info"]
     ps = {p.id: p for p, _, _ in configs("thorough", 0)}
+    for q in CP.catalogue():
+        ps.setdefault(q.id, q)
     p = ps[info["program"]]
     k = info["k"] if info["k"] != "sym" else 3.0
     if info.get("second"):
@@ -395,7 +439,7 @@ def replay(path):
         print("REPRODUCED" if bad else "not reproduced")
         return 1 if bad else 0
     try:
-        got = float_run(p, r["inputs"], k, info["rows"], int_matrix=info.get("int_matrix", False))
+        got = float_run(p, r["inputs"], k, info["rows"], int_matrix=info.get("int_matrix", False), max_dt=info.get("max_dt"))
     except pyh.GateRejected as ex:
         print("gate rejected", ex)
         return 0
